@@ -6,6 +6,7 @@ use serde_json::Value;
 
 mod address;
 mod c10;
+mod c16;
 mod decode;
 mod packet_window;
 mod ss_udp;
@@ -48,6 +49,11 @@ fn dispatch(entry: &str, spec: &Value) -> Result<Option<String>, String> {
         "vmess_matching" => c10::vmess_matching(spec),
         "mode_bytes" => c10::mode_bytes(spec),
         "salt_retention" => c10::salt_retention(spec),
+        "mode_predicate" => c16::mode_predicate(spec),
+        "kind_predicate" => c16::kind_predicate(spec),
+        "dispatch" => c16::dispatch(spec),
+        "key_length" => c16::key_length(spec),
+        "udp_legacy_key" => c16::udp_legacy_key(spec),
         _ => Err(format!("unknown entry {entry}")),
     }
 }
